@@ -1,10 +1,9 @@
 (* C07 - property theorems: the rotating log file of the file channel (repaired code:
-   /repo commits 4ee059b and f21e33c). *)
+   /repo commits 4ee059b, f21e33c and 8422d36). *)
 From HT Require Import Common.Bytes C07.Model C07.Check C07.Proofs.
 Open Scope Z_scope.
 
-(* The full statement, kept visible: the lines part holds (C07_lines_kept below); the Send part
-   does not hold of the code (destination cannot be opened => Send blocks; recorded finding). *)
+(* The full statement, kept visible; it holds of the repaired code (C07_full_holds below). *)
 Definition C07_full : Prop := full_lines /\ full_send.
 
 (* Write never panics, never loops for ever, reports len(p) and keeps pos = size,
@@ -84,21 +83,14 @@ Theorem C07_scan_is_index_loop : forall p j,
   end.
 Proof. exact scan_down_spec. Qed.
 
-(* Send returns for every sequence of requests and idle seconds when the destination could be opened *)
-Theorem C07_send_returns_when_openable : forall max s init es,
-  exists w, wl_run (wl_new max true s init) es = Some w /\ wl_blocked w = false.
-Proof. exact wl_openable_never_blocks. Qed.
+(* New hands out a channel exactly when max >= 1024 and the destination can be opened (otherwise
+   it returns an error and there is nothing to Send on); on every channel handed out the writer
+   receives every request, for all sequences of requests and idle seconds: Send always returns *)
+Theorem C07_send_always_returns : full_send.
+Proof. exact full_send_holds. Qed.
 
-(* ---- the recorded finding: the destination cannot be opened => the first Send blocks ---- *)
-Theorem C07_send_blocks_refuted : forall max s init es line s',
-  exists w, wl_run (wl_new max false s init) (ESend s' line :: es) = Some w /\ wl_blocked w = true.
-Proof. exact wl_unopenable_blocks. Qed.
-
-Theorem C07_full_send_refuted : ~ full_send.
-Proof. exact full_send_refuted. Qed.
-
-Theorem C07_full_refuted : ~ C07_full.
-Proof. exact full_refuted. Qed.
+Theorem C07_full_holds : C07_full.
+Proof. exact full_holds. Qed.
 
 (* non-vacuity, on the inputs on which the code used to fail (max 1024):
    a 1000-byte line then a 100-byte line (no newline in the window, file not empty);
@@ -135,6 +127,12 @@ Example C07_nonvacuous_same_second :
   end = true.
 Proof. vm_compute. reflexivity. Qed.
 
+Example C07_nonvacuous_new :
+  (match wl_new 1024 true 0 [] with Some _ => true | None => false end) = true /\
+  (match wl_new 1024 false 0 [] with Some _ => true | None => false end) = false /\
+  (match wl_new 1023 true 0 [] with Some _ => true | None => false end) = false.
+Proof. vm_compute. auto. Qed.
+
 Print Assumptions C07_write_total.
 Print Assumptions C07_history_total.
 Print Assumptions C07_size_bound.
@@ -144,7 +142,5 @@ Print Assumptions C07_rotated_name_is_fresh.
 Print Assumptions C07_lines_kept_all_histories.
 Print Assumptions C07_lines_kept.
 Print Assumptions C07_scan_is_index_loop.
-Print Assumptions C07_send_returns_when_openable.
-Print Assumptions C07_send_blocks_refuted.
-Print Assumptions C07_full_send_refuted.
-Print Assumptions C07_full_refuted.
+Print Assumptions C07_send_always_returns.
+Print Assumptions C07_full_holds.
